@@ -102,7 +102,7 @@ def nontrivial(prog, faults):
 def enumerate_case(ctx, base):
     """base = {'prog', 'params', 'pair_seed'}; raises Violation carrying the concrete failing sub-case."""
     prog = base['prog']
-    faults = FR.applicable_faults(prog, extra=('vector',))
+    faults = FR.applicable_faults(prog, extra=('vector', 'extractor_discards'))
     placements = [[]] + [[f] for f in faults]
     rnd = random.Random(base['pair_seed'])
     pairs = [[a, b] for i, a in enumerate(faults) for b in faults[i + 1:] if FR.compatible(a, b)]
